@@ -275,7 +275,7 @@ def frame_analysis(A, an):
         if d == "core::num::<impl u16>::from_le_bytes":
             arr = args[0]
             st.ghost["fa-read-args"] = tuple(e.lin for e in arr.elems) if isinstance(arr, VArr) else None
-        if d == "std::mem::swap":
+        if d in ("std::mem::swap", "std::mem::replace", "std::mem::take"):
             if any(is_self_crc(st, a) for a in args):
                 st.ghost["fa-swapped"] = True
         if d == an.F.bodies and False:
